@@ -124,7 +124,7 @@ def features0(e):
             f["cause"] = "length_" + e["retc"]
         return f
     return {"fam": "body", "type": e.get("type"), "ver": e.get("ver"), "kind": e.get("kind"), "trig": e.get("trig"),
-            "prim": e.get("prim"), "caller": e.get("caller"), "fix": e.get("fix"), "pos": e.get("pos"), "runver": e.get("runver"), "strict": e.get("strict"), "mustfail": e.get("mustfail"), "partial": e.get("partial"),
+            "prim": e.get("prim"), "caller": e.get("caller"), "fix": e.get("fix"), "pos": e.get("pos"), "runver": e.get("runver"), "strict": e.get("strict"), "mustfail": e.get("mustfail"), "truncok": e.get("truncok"), "partial": e.get("partial"),
             "res": e.get("res"), "site": e.get("site"),
             "cause": e.get("cause") if e.get("cause") not in ("-", None) else e.get("res"),
             "err": e.get("err"), "alloc_kib": e.get("alloc"), "inlen": e.get("inlen"), "got": e.get("got"), "hex": e.get("hex")}
